@@ -9,6 +9,8 @@ pid, src = sys.argv[1], os.path.abspath(sys.argv[2])
 suite = "--suite" in sys.argv
 rnd = "r2-" if "/mut2_" in src else ("r3-" if "/mut3_" in src else "")
 name = f"{pid}-{rnd}{os.path.basename(src.rstrip('/'))}"
+if src.startswith("/verif/seeded/"):
+    name = os.path.basename(src.rstrip("/"))  # re-evaluation in place
 wt = f"/tmp/seed_eval_{pid}_{os.getpid()}"
 def sh(cmd, **kw):
     p = subprocess.run(cmd, shell=True, stdout=subprocess.PIPE, stderr=subprocess.STDOUT, text=True, **kw)
@@ -49,7 +51,8 @@ dst = f"/verif/seeded/{name}"
 os.makedirs(dst, exist_ok=True)
 for f in ("patch.diff", "demo.py", "patch.rebased.diff"):
     if os.path.exists(os.path.join(src, f)):
-        shutil.copy(os.path.join(src, f), dst)
+        if os.path.abspath(src) != os.path.abspath(dst):
+            shutil.copy(os.path.join(src, f), dst)
 meta = json.load(open(os.path.join(src, "meta.json"))) if os.path.exists(os.path.join(src, "meta.json")) else {}
 meta.update({"breaks_property": pid, "evaluation": res,
              "what_was_run": f"demo on clean + mutated scratch worktree; {'pinned suite via run_tests.py; ' if suite else ''}VERIF_REPO=<worktree> ./check {pid} --tier quick"})
